@@ -43,11 +43,13 @@ func (d *DosNode) VerifQueryLoop() { d.queryLoop() }
 func (d *DosNode) VerifCancel() { d.cancel() }
 
 // VerifRegister registers interest in a request with the collector loop; shares are
-// delivered on the returned channel. Returns false if ctx ended first.
-func (d *DosNode) VerifRegister(ctx context.Context, requestID string, threshold int, reply chan *vss.Signature) bool {
-	req := request{ctx: ctx, requestID: requestID, threshold: threshold, reply: reply}
+// delivered on reply. reqCtx is the request's own context (the one the loop watches);
+// sendCtx only bounds the hand-over of the registration itself. Returns false if sendCtx
+// ended first.
+func (d *DosNode) VerifRegister(sendCtx, reqCtx context.Context, requestID string, threshold int, reply chan *vss.Signature) bool {
+	req := request{ctx: reqCtx, requestID: requestID, threshold: threshold, reply: reply}
 	select {
-	case <-ctx.Done():
+	case <-sendCtx.Done():
 		return false
 	case d.reqSignc <- req:
 		return true
